@@ -322,6 +322,26 @@ def run_inproc(ctx, i, rng, res):
                             break
                     if npos > 25:
                         break
+                if rng.random() < 0.3:
+                    # fault injection: the next two indexing passes of this document fail inside the parser (whatever the cause, a failure
+                    # must not make the server write or run anything): on two successive edits
+                    from fortls.parsers.internal.parser import FortranFile
+                    orig_parse = FortranFile.parse
+                    left = [2]
+
+                    def failing_parse(self_, *a, **k):
+                        if left[0] > 0 and self_.path == ws.path(f):
+                            left[0] -= 1
+                            raise rng.choice([ValueError("injected"), TypeError("injected"), KeyError("x"), RecursionError("injected")])
+                        return orig_parse(self_, *a, **k)
+                    FortranFile.parse = failing_parse
+                    try:
+                        srv.did_change(uri, [{"text": text + "\n! edited\n"}])
+                        srv.did_change(uri, [{"text": text + "\n! edited again\n"}])
+                        res.count("evaluations", 2)
+                        res.kind("fault:parse-failure")
+                    finally:
+                        FortranFile.parse = orig_parse
                 srv.did_save(uri)
                 srv.request("textDocument/documentSymbol", {"textDocument": {"uri": uri}})
                 res.count("evaluations", 2)
